@@ -51,6 +51,9 @@ def install(I):
         return isinstance(v, MatVal) or (isinstance(v, list) and v and all(isinstance(r, RowVal) for r in v))
 
     def binop(ctx, op, a, b):
+        if is_mat(a) and is_mat(b) and len(a) == len(b) and all(len(r) == 1 for r in b) and not all(len(r) == 1 for r in a):
+            # (n, m) op (n, 1): each row of a combined with the single entry of the matching row of b
+            return MatVal([RowVal([lib.binop(ctx, op, x, rb[0]) for x in ra]) for ra, rb in zip(a, b)])
         if is_mat(a) and isinstance(b, RowVal):
             return MatVal([lib.binop(ctx, op, r, b) for r in a])
         if isinstance(a, RowVal) and is_mat(b):
@@ -85,6 +88,10 @@ def install(I):
             return MatVal(matmul_rows(a, b))
         if isinstance(a, RowVal) and is_mat(b) and len(b) == 3:
             return matmul_rows([a], b)[0]
+        if is_mat(a) and len(a) == 3 and isinstance(b, (RowVal, tuple, list)) and len(b) == 3 and not is_mat(b):
+            # matrix times column vector
+            v = [to_z3(x, sort=R) if not isinstance(x, bool) else None for x in b]
+            return RowVal([Sym(sum(to_z3(a[i][j], sort=R) * v[j] for j in range(3))) for i in range(3)])
         raise OutOfSubset("np.matmul of %r and %r" % (type(a).__name__, type(b).__name__))
     I.models['numpy.matmul'] = np_matmul
 
@@ -98,6 +105,19 @@ def install(I):
         ctx.I._last_inv = (C, Ci)
         return Ci
     I.models['numpy.linalg.inv'] = np_inv
+
+    def np_reshape(ctx, args, kwargs):
+        v, shape = args[0], args[1]
+        if isinstance(v, (tuple, list)) and len(v) == 3 and tuple(shape) == (3, 1):
+            return MatVal([RowVal([x]) for x in v])
+        raise OutOfSubset("np.reshape(%r, %r)" % (v, shape))
+    I.models['numpy.reshape'] = np_reshape
+
+    def attr_T(ctx, obj):
+        if is_mat(obj) and len(obj) == 3 and all(len(r) == 3 for r in obj):
+            return MatVal([RowVal([obj[j][i] for j in range(3)]) for i in range(3)])
+        return NotImplemented
+    I.models['attr.T'] = attr_T
 
     def np_diag(ctx, args, kwargs):
         (C,) = args
